@@ -128,6 +128,7 @@ func runC02(c *Ctx) {
 	parserVerdictAfterSearch(c, p, "R8")
 	c06ParserDecides(c, p, "R8")
 	dialOneHandshakePerArgs(c, p, "R8")
+	dialClosesTheDialledConn(c, p, "R8")
 	dial := obfs4Dial(c)
 	ps := p.funcsCalling("transports/obfs4", idClientHS)
 	o := c.Obl("R0", "anchors", "the obfs4 client path (ClientFactory.Dial) and the function completing the ntor client handshake exist")
